@@ -89,4 +89,4 @@ pub(crate) fn from_bytes_v2(bytes: Bytes) -> Result<HpoTermInternal, HpoError> {
 
 #[cfg(kani)]
 #[path = "/verif/kani/binary_term.rs"]
-mod verif_kani;
+pub(crate) mod verif_kani;
